@@ -527,7 +527,7 @@ func c13CLI(c *fw.Ctx) fw.Outcome {
 
 func init() {
 	libN := func(tier string) int64 { return tierN(tier, 12000, 400000) }
-	cliN := func(tier string) int64 { return tierN(tier, 24, 200) }
+	cliN := func(tier string) int64 { return tierN(tier, 96, 1000) }
 	fw.Register(&fw.Property{
 		ID:          "C13",
 		Level:       "exploration",
